@@ -25,7 +25,11 @@ type Baton struct {
 	// OnlySites, when set, restricts parking to these sites (yield points that lie
 	// inside a critical section protected by a sync.Mutex cannot be parked at).
 	OnlySites []string
+	owner     uint64 // the simulator goroutine: it must never park itself
 }
+
+// NewBaton creates a baton owned by the calling (simulator) goroutine.
+func NewBaton() *Baton { return &Baton{owner: goid()} }
 
 func (b *Baton) underLock() bool {
 	if len(b.NoParkUnder) == 0 {
@@ -84,7 +88,12 @@ func (b *Baton) Hook(site string) {
 			return
 		}
 	}
-	p := &Parked{Site: site, Goid: goid(), ch: make(chan struct{})}
+	me := goid()
+	if me == b.owner {
+		b.mu.Unlock()
+		return // a yield point reached on the simulator goroutine itself (e.g. a Gossiper callback it delivers)
+	}
+	p := &Parked{Site: site, Goid: me, ch: make(chan struct{})}
 	b.parked = append(b.parked, p)
 	b.mu.Unlock()
 	<-p.ch // durably blocked: the simulator decides when this task continues
